@@ -278,21 +278,33 @@ def _tail(ch, cx, q, p, m, b, j, memo={}):
 # --------------------------------------------------------------------------------------------------------------
 class Cfg:
     """derivability in the grammar itself (productions as written in the rule docstrings), with the operator-table
-    filters on parent/child kinds: D(A, kind, i, j)"""
+    filters on parent/child kinds: D(A, kind, right_open, i, j).  An expression is RIGHT-OPEN when its right edge is an
+    unparenthesised lambda or conditional expression ("extend as far to the right as possible"): such an expression
+    cannot be the leftmost operand of a binary operator, suffix, index or conditional."""
 
-    def __init__(self, cx, ch):
+    def __init__(self, cx, ch, filters=True):
         self.cx, self.ch = cx, ch
         self.memo = {}
         self.busy = set()
         self.defs = []
+        self.filters = filters
 
     def kinds_for(self, A):
         if A != 'expression':
             return [None]
         return sorted({self.cx.kinds[p] for p in self.cx.T.by_lhs['expression']}, key=str)
 
-    def d(self, A, kind, i, j):
-        key = (A, kind, i, j)
+    def bad(self, parent, side, ck):
+        if not self.filters:
+            return False
+        if parent[0] == 'bin' and side == 'right' and ck[0] == 'ifexpr':
+            # IF is not in the operator table: a conditional is looser than every binary operator, so it is never the
+            # unparenthesised right operand of one (only used to keep the REFERENCE strict; not demanded of the parser)
+            return True
+        return bad_child(parent, side, ck)
+
+    def d(self, A, kind, ro, i, j):
+        key = (A, kind, ro, i, j)
         if key in self.memo:
             return self.memo[key]
         if key in self.busy:
@@ -301,23 +313,44 @@ class Cfg:
         T = self.cx.T
         alts = []
         for p in T.by_lhs.get(A, []):
-            if A == 'expression' and self.cx.kinds[p] != kind:
-                continue
-            alts.append(self.seq(p, 0, i, j))
+            if A == 'expression':
+                k = self.cx.kinds[p]
+                if k != kind:
+                    continue
+                if k[0] in ('lambda', 'ifexpr'):
+                    if not ro:
+                        continue
+                    alts.append(self.seq(p, 0, i, j, None))
+                elif k[0] in ('bin', 'uminus', 'not'):
+                    alts.append(self.seq(p, 0, i, j, ro))
+                else:
+                    if ro:
+                        continue
+                    alts.append(self.seq(p, 0, i, j, None))
+            else:
+                alts.append(self.seq(p, 0, i, j, None))
         r = self.ch._or(alts)
         if r is not None and r is not True:
-            v = z3.Bool(f"g_{A}_{kind}_{i}_{j}".replace(' ', '').replace("'", ""))
+            v = z3.Bool(f"g_{A}_{kind}_{ro}_{i}_{j}".replace(' ', '').replace("'", ""))
             self.defs.append(v == r)
             r = v
         self.busy.discard(key)
         self.memo[key] = r
         return r
 
-    def any_expr(self, i, j, allowed):
-        return self.ch._or([self.d('expression', k, i, j) for k in self.kinds_for('expression') if allowed(k)])
+    def any_expr(self, i, j, allowed, ro=None):
+        """some expression over tok[i:j] whose kind is allowed; ro: None = either, True/False = required right-openness"""
+        alts = []
+        for k in self.kinds_for('expression'):
+            if not allowed(k):
+                continue
+            for r in ((True, False) if ro is None else (ro,)):
+                alts.append(self.d('expression', k, r, i, j))
+        return self.ch._or(alts)
 
-    def seq(self, p, m, i, j):
-        key = ('seq', p, m, i, j)
+    def seq(self, p, m, i, j, last_ro):
+        """symbols m.. of production p derive tok[i:j]; last_ro: required right-openness of the LAST symbol if it is an expression"""
+        key = ('seq', p, m, i, j, last_ro)
         if key in self.memo:
             return self.memo[key]
         T = self.cx.T
@@ -329,27 +362,35 @@ class Cfg:
             X = rhs[m]
             if X in T.nonterms:
                 alts = []
+                is_last = (m == n - 1)
                 for k in range(i, j + 1):
-                    if X == 'expression' and T.prods[p]["name"] == 'expression':
-                        parent = self.cx.kinds[p]
-                        side = 'left' if m == 0 else 'right'
-                        if parent[0] in ('suffix', 'index') and m != 0:
-                            sub = self.any_expr(i, k, lambda ck: True)
+                    if X == 'expression':
+                        want_ro = last_ro if is_last else None
+                        leftmost_operand = (m == 0 and T.prods[p]["name"] == 'expression' and n > 1) or \
+                                           (m + 1 < n and rhs[m + 1] == 'LBRACKET')
+                        if T.prods[p]["name"] == 'expression':
+                            parent = self.cx.kinds[p]
+                            side = 'left' if m == 0 else 'right'
+                            if parent[0] in ('suffix', 'index') and m != 0:
+                                allowed = (lambda ck: True)
+                            else:
+                                allowed = (lambda ck, parent=parent, side=side: not self.bad(parent, side, ck))
+                        elif m + 1 < n and rhs[m + 1] == 'LBRACKET':
+                            # container of an index statement (del x[k], x[k] = v, x[k] += v): `[` binds like indexing
+                            allowed = (lambda ck: not self.bad(('index',), 'left', ck))
                         else:
-                            sub = self.any_expr(i, k, lambda ck, parent=parent, side=side: not bad_child(parent, side, ck))
-                    elif X == 'expression' and m + 1 < n and rhs[m + 1] == 'LBRACKET':
-                        # container of an index statement (del x[k], x[k] = v, x[k] += v): `[` binds like indexing
-                        sub = self.any_expr(i, k, lambda ck: not bad_child(('index',), 'left', ck))
-                    elif X == 'expression':
-                        sub = self.any_expr(i, k, lambda ck: True)
+                            allowed = (lambda ck: True)
+                        if leftmost_operand and self.filters:
+                            want_ro = False          # cannot be followed by the rest of the production
+                        sub = self.any_expr(i, k, allowed, want_ro)
                     else:
-                        sub = self.d(X, None, i, k)
+                        sub = self.d(X, None, None, i, k)
                     if sub is None:
                         continue
-                    alts.append(self.ch._and(sub, self.seq(p, m + 1, k, j)))
+                    alts.append(self.ch._and(sub, self.seq(p, m + 1, k, j, last_ro)))
                 r = self.ch._or(alts)
             elif i < j and i < self.ch.L and X != END:
-                r = self.ch._and(self.ch.is_(i, X), self.seq(p, m + 1, i + 1, j))
+                r = self.ch._and(self.ch.is_(i, X), self.seq(p, m + 1, i + 1, j, last_ro))
             else:
                 r = None
         self.memo[key] = r
@@ -358,7 +399,7 @@ class Cfg:
     def derives(self):
         alts = []
         for j in range(self.ch.L + 1):
-            alts.append(self.ch._and(self.d('code', None, 0, j), self.ch.is_(j, END)))
+            alts.append(self.ch._and(self.d('code', None, None, 0, j), self.ch.is_(j, END)))
         return self.ch._or(alts)
 
 
@@ -385,14 +426,8 @@ def q_soundness(cx, excludes):
     """every accepted token string is derivable in the grammar (sanity of the tables against the productions)"""
     ch = lrc.Chart(cx.T, cx.L, alphabet=cx.alpha)
     acc = ch.accept()
-    cx2 = cx
-    g = Cfg(cx2, ch)
-    saved = globals()['bad_child']
-    try:
-        globals()['bad_child'] = lambda parent, side, child: False      # plain CFG derivability
-        der = g.derives()
-    finally:
-        globals()['bad_child'] = saved
+    g = Cfg(cx, ch, filters=False)          # plain CFG derivability
+    der = g.derives()
     ch.defs.extend(g.defs)
     goal = z3.And(acc, z3.Not(der if der is not None else z3.BoolVal(False)))
     return _finish(ch, goal, cx.timeout, "accepted but not derivable in the grammar")
